@@ -399,6 +399,21 @@ def real(f: list[str]) -> str:
         if a is None:
             return "none"
         return outcome(lambda: a.validate([unhx(x) for x in f[3:]], unhx(f[2])), tf)
+    if op == "seq":          # several operations in order (tab-free encoding: fields joined by ';', ops by '|')
+        outs = [real(x.split(";")) for x in f[1].split("|")]
+        return outs[-1]
+    if op == "algo.validate_many":   # a flood of distinct calls on one algorithm object
+        import random as _random
+        a = checksum.algorithms.get(unhx(f[1]))
+        r_ = _random.Random(int(f[3]))
+        n_ok = 0
+        for _ in range(int(f[2])):
+            acct = "".join(r_.choice("0123456789") for _ in range(10))
+            try:
+                n_ok += bool(a.validate([acct], ""))
+            except exceptions.SchwiftyException:
+                pass
+        return "ok " + str(n_ok)
     raise ValueError("unknown op " + op)
 
 
